@@ -2,17 +2,18 @@
 
 package sftp
 
-// Free-running (Engine B) halves of C02 and C18: every request program up to depth 4 over a
+// Program-corpus halves of C02 and C18 (one deterministic schedule per program, so that a missing
+// response is a deadlock and not a hang): every request program up to depth 4 over a
 // small alphabet, pipelined in one burst against both real servers, allocator off and on.
 
 import (
 	"bytes"
 	"fmt"
-	"os"
-	"path/filepath"
 	"strings"
 
+	"verif/explore"
 	"verif/reg"
+	"verif/vsched"
 )
 
 type corpSym struct {
@@ -55,86 +56,33 @@ func corpusAlphabet() []corpSym {
 	}
 }
 
-// corpusRun executes one program against a fresh server and returns the response frames.
-func corpusRun(server string, alloc bool, prog []corpSym) (*bSession, []frame, []byte, []byte, string) {
-	var s *bSession
-	root := ""
+// corpusRun executes one program against a fresh server under the scheduler (one deterministic
+// schedule: a missing response is a deadlock, not a hang) and returns the run.
+func corpusRun(server string, alloc bool, prog []corpSym, fixedRoot string) (r *srvRun, dead bool, dump string) {
+	spec := &srvSpec{server: server, alloc: alloc, hangup: -1, fixedRoot: fixedRoot}
 	if server == "rs" {
-		h := newBHandler()
-		h.files["/f"] = []byte(progInit)
-		h.files["/g"] = []byte("gggg")
-		var opts []RequestServerOption
-		if alloc {
-			opts = append(opts, WithRSAllocator())
-		}
-		s = bServeRS(h.handlers(), opts...)
+		spec.files = map[string]string{"/f": progInit, "/g": "gggg"}
+		spec.setup = [][]byte{mustPkt(&sshFxpOpenPacket{ID: 1, Path: "/f", Pflags: sshFxfRead | sshFxfWrite}), mustPkt(&sshFxpOpendirPacket{ID: 2, Path: "/"})}
 	} else {
-		root = scratchDir()
-		os.WriteFile(filepath.Join(root, "f"), []byte(progInit), 0o644)
-		os.WriteFile(filepath.Join(root, "g"), []byte("gggg"), 0o644)
-		os.Mkdir(filepath.Join(root, "d"), 0o755)
-		opts := []ServerOption{WithServerWorkingDirectory(root)}
-		if alloc {
-			opts = append(opts, WithAllocator())
-		}
-		s = bServeOS(opts...)
+		spec.files = map[string]string{"f": progInit, "g": "gggg"}
+		spec.dirs = []string{"d"}
+		spec.setup = [][]byte{mustPkt(&sshFxpOpenPacket{ID: 1, Path: "f", Pflags: sshFxfRead | sshFxfWrite}), mustPkt(&sshFxpOpendirPacket{ID: 2, Path: "d"})}
 	}
-	var reqTypes []byte
-	var reqIDs []uint32
-	ex := func(p []byte) {
-		reqTypes = append(reqTypes, pktType(p))
-		reqIDs = append(reqIDs, pktID(p))
-		s.Exchange(p)
-	}
-	ex(mustPkt(&sshFxInitPacket{Version: 3}))
-	if server == "rs" {
-		ex(mustPkt(&sshFxpOpenPacket{ID: 1, Path: "/f", Pflags: sshFxfRead | sshFxfWrite}))
-		ex(mustPkt(&sshFxpOpendirPacket{ID: 2, Path: "/"}))
-	} else {
-		ex(mustPkt(&sshFxpOpenPacket{ID: 1, Path: "f", Pflags: sshFxfRead | sshFxfWrite}))
-		ex(mustPkt(&sshFxpOpendirPacket{ID: 2, Path: "d"}))
-	}
-	var burst []byte
 	for i, sym := range prog {
-		p := sym.mk(uint32(10+i), server)
-		reqTypes = append(reqTypes, pktType(p))
-		reqIDs = append(reqIDs, pktID(p))
-		burst = append(burst, p...)
+		spec.burst = append(spec.burst, sym.mk(uint32(10+i), server))
 	}
-	s.c2s.Write(burst)
-	// collect exactly len(prog) responses with the connection open, then hang up
-	var frames []frame
-	for len(frames) < len(prog) {
-		f, err := readFrame(s.s2c)
-		if err != nil {
-			break
+	sc := func() (func(), func(*vsched.Exec) explore.Verdict) {
+		return func() { r = spec.start(); r.drive() }, func(e *vsched.Exec) explore.Verdict {
+			dead, dump = e.Deadlock, e.DeadDump
+			if e.Panic != nil {
+				dead, dump = true, fmt.Sprint("panic: ", e.Panic)
+			}
+			return explore.Verdict{Outcome: "run"}
 		}
-		frames = append(frames, f)
 	}
-	s.Stop(nil)
-	if root != "" {
-		os.RemoveAll(root)
-	}
-	return s, frames, reqTypes[3:], nil, fmt.Sprint(reqIDs[3:])
-}
-
-// bHandler is a thread-safe byte-slice handler for free-running request-server sessions.
-type bHandler struct {
-	vh    *vhandler
-	files map[string][]byte
-}
-
-func newBHandler() *bHandler { return &bHandler{files: map[string][]byte{}} }
-
-func (h *bHandler) handlers() Handlers {
-	m := InMemHandler()
-	fs := m.FileGet.(*root)
-	for n, c := range h.files {
-		f := &memFile{name: n, modtime: vinfo{}.ModTime(), content: append([]byte(nil), c...)}
-		fs.files[n] = f
-	}
-	fs.rootFile.modtime = vinfo{}.ModTime()
-	return m
+	explore.Run(explore.Config{Prop: "corpus", Strategy: "db", Bound: 0, AllowBlock: true}, sc)
+	r.cleanup()
+	return
 }
 
 func corpusPrograms(depth int, f func([]corpSym)) {
@@ -203,28 +151,14 @@ func init() {
 						res.Exhaustive = false
 						return
 					}
-					_, frames, reqTypes, _, ids := corpusRun(server, alloc, p)
+					r, dead, dump := corpusRun(server, alloc, p, "")
 					key := fmt.Sprintf("%s alloc=%v [%s]", server, alloc, progName(p))
 					res.Case(key)
 					res.Sample(key)
-					var st []string
-					for _, f := range frames {
-						st = append(st, f.String())
-					}
 					res.Transitions += int64(len(p))
-					bad := ""
-					if len(frames) != len(p) {
-						bad = fmt.Sprintf("%d requests, %d responses", len(p), len(frames))
-					}
-					for k, f := range frames {
-						if bad != "" {
-							break
-						}
-						if f.id != uint32(10+k) {
-							bad = fmt.Sprintf("response %d carries id %d, want %d (request ids %s): %v", k, f.id, 10+k, ids, st)
-						} else if !legalResponse(reqTypes[k], f.typ) {
-							bad = fmt.Sprintf("response %d to %s has illegal type %s", k, fxp(reqTypes[k]), fxp(f.typ))
-						}
+					bad := r.orderOracle(true)
+					if dead {
+						bad = "server did not finish: " + dump + " " + bad
 					}
 					if bad != "" {
 						res.Violate("C02", "c02-programs:"+server, key+": "+bad, map[string]any{"server": server, "alloc": alloc, "program": progName(p)}, nil)
@@ -240,6 +174,7 @@ func init() {
 		res := reg.NewResult(c.Part)
 		depth := c.ArgInt("depth", 3)
 		var i int64
+		pairRoot := ""
 		for _, server := range []string{"rs", "os"} {
 			corpusPrograms(depth, func(p []corpSym) {
 				if !deterministic(p, server) {
@@ -253,8 +188,12 @@ func init() {
 					res.Exhaustive = false
 					return
 				}
-				_, f0, _, _, _ := corpusRun(server, false, p)
-				s1, f1, _, _, _ := corpusRun(server, true, p)
+				if pairRoot == "" {
+					pairRoot = scratchDir()
+				}
+				r0, dead0, _ := corpusRun(server, false, p, pairRoot)
+				r1, dead1, dump1 := corpusRun(server, true, p, pairRoot)
+				f0, f1 := r0.frames, r1.frames
 				key := fmt.Sprintf("%s [%s]", server, progName(p))
 				res.Case(key)
 				res.Sample(key)
@@ -269,12 +208,10 @@ func init() {
 						bad = fmt.Sprintf("response %d differs: without allocator %x (%s), with allocator %x (%s)", k, b0[k], f0[k], b1[k], f1[k])
 					}
 				}
-				var a *allocator
-				if s1.Srv != nil {
-					a = s1.Srv.pktMgr.alloc
-				} else {
-					a = s1.RS.pktMgr.alloc
+				if dead0 || dead1 {
+					bad = "server did not finish: " + dump1
 				}
+				a := r1.alloc
 				if bad == "" && (a.countUsedPages() != 0 || a.countAvailablePages() != 0) {
 					bad = fmt.Sprintf("after Serve returned the allocator still has %d used / %d available pages", a.countUsedPages(), a.countAvailablePages())
 				}
@@ -288,17 +225,17 @@ func init() {
 		return res
 	})
 	c02ExtraJobs = func(tier string) []reg.Job {
-		d, b := "3", 100
+		d, b := "4", 100
 		if tier == "thorough" {
-			d, b = "4", 900
+			d, b = "5", 900
 		}
-		return []reg.Job{{Part: "C02/programs", Build: "plain", Args: map[string]string{"depth": d}, Shards: 16, BudgetS: b, Procs: 1, Label: "free-running: all programs to depth " + d}}
+		return []reg.Job{{Part: "C02/programs", Build: "instr", Args: map[string]string{"depth": d}, Shards: 16, BudgetS: b, Procs: 1, Label: "corpus: all programs to depth " + d + " (one schedule each)"}}
 	}
 	c18ExtraJobs = func(tier string) []reg.Job {
-		d, b := "3", 100
+		d, b := "4", 100
 		if tier == "thorough" {
-			d, b = "4", 900
+			d, b = "5", 900
 		}
-		return []reg.Job{{Part: "C18/programs", Build: "plain", Args: map[string]string{"depth": d}, Shards: 16, BudgetS: b, Procs: 1, Label: "free-running: program corpus with vs without allocator, depth " + d}}
+		return []reg.Job{{Part: "C18/programs", Build: "instr", Args: map[string]string{"depth": d}, Shards: 16, BudgetS: b, Procs: 1, Label: "corpus: programs with vs without allocator, depth " + d + " (one schedule each)"}}
 	}
 }
